@@ -269,4 +269,22 @@ theorem ident_class_exact (u : IUnit) (hname : u.name ≠ "") (hok : ∀ m ∈ u
   · have h1 := congrArg DS.ext m3; have h2 := congrArg DS.ext hSn; simp only at h1 h2; rw [h1, h2, a5]
   · rw [m4, hSf]; rfl
 
+/-! ### non-vacuity: a concrete unit with an annotated method, a constructor, a field and a `return null` -/
+
+def demoUnit : IUnit :=
+  { pkg := "p", imports := ["q.T"], annos := [], name := "A", ext := none, impls := [],
+    members := [
+      .field [.anno { name := "Inject" }],
+      .ctor [] "A" ⟨4, 11, 4, 16⟩ [],
+      .method [.anno { name := "Override" }] "run" "T" (some { name := "Override" }) ["public"] ⟨6, 11, 8, 4⟩ [.returnExpr "null"]] }
+
+example : demoUnit.name ≠ "" ∧ ∀ m ∈ demoUnit.members, m.ok := by
+  refine ⟨by decide, ?_⟩
+  intro m hm
+  simp only [demoUnit, List.mem_cons, List.not_mem_nil, or_false] at hm
+  rcases hm with rfl | rfl | rfl <;> simp [IMember.ok, inner]
+
+-- the model run on it (a test, not a proof): one entry with the constructor and the method
+#guard ((runFile {} demoUnit.events).nodes.map fun d => (d.node, d.fns.map (·.name))) == [("A", ["A", "run"])]
+
 end CocaVerif.Props.C01Ident
